@@ -1,6 +1,45 @@
-(* C16 - placeholder while the proofs are being written *)
-From DnsV Require Import Base.Bytes Model.Cdb.
+(* C16 - A written CDB file returns every value, in order, and nothing else.
+   This file holds only theorem statements closed by [exact]; proofs are in
+   Proofs/CdbTable.v (probing invariant), Proofs/CdbFind.v (reader), Proofs/Cdb.v
+   (writer as a whole), Proofs/CdbText.v (dump / make text).
+   All theorems hold for an ARBITRARY hash function H (so every pattern of table and
+   start-slot collisions, full-hash collisions and probe wrap-around is covered) under
+   the guard fits32 (file size < 2^32; beyond it uint32 positions wrap in the Go code). *)
+From DnsV Require Import Base.Bytes Spec.Cdb Model.Cdb Proofs.Cdb Proofs.CdbText.
 Open Scope N_scope.
-Example C16_cdb_hash_sample : cdb_hash [97] = 177604.
-Proof. vm_compute. reflexivity. Qed.
-Print Assumptions C16_cdb_hash_sample.
+
+(* the writer terminates with an image (no table ever lacks a free slot) *)
+Theorem C16_write_ok : forall (H : bytes -> N) kvs, fits32 kvs -> exists img, write H kvs = Ok img.
+Proof. exact write_ok. Qed.
+Print Assumptions C16_write_ok.
+
+(* FindStart then FindNext until EOF returns exactly the values written under the key, in
+   insertion order, then EOF; for a key never written: EOF at once (spec_vals = []) *)
+Theorem C16_lookup_exact : forall (H : bytes -> N) kvs img k,
+  fits32 kvs -> write H kvs = Ok img -> find_all H img k = Ok (spec_vals kvs k).
+Proof. exact lookup_exact. Qed.
+Print Assumptions C16_lookup_exact.
+
+(* Make reads back exactly the pairs Dump printed *)
+Theorem C16_parse_dump : forall kvs, fits32 kvs -> parse_text (dump_text kvs) = Ok kvs.
+Proof. exact parse_dump. Qed.
+Print Assumptions C16_parse_dump.
+
+(* Dump then Make reproduces the image (structured level: records with their positions and
+   the 256 slot tables with their positions, i.e. everything [serialize] writes) *)
+Theorem C16_dump_make : forall (H : bytes -> N) kvs img,
+  fits32 kvs -> write H kvs = Ok img -> make H (dump img) = Ok img.
+Proof. exact dump_make. Qed.
+Print Assumptions C16_dump_make.
+
+(* the hypotheses are satisfiable for non-trivial values (real cdb hash, repeated key,
+   empty key, empty value, identical pair twice, absent key) *)
+Example C16_lookup_example :
+  let kvs := [([1], [10]); ([2], [20]); ([1], []); ([], [30]); ([1], [10])] in
+  fits32 kvs /\
+  match write cdb_hash kvs with
+  | Ok img => find_all cdb_hash img [1] = Ok [[10]; []; [10]] /\ find_all cdb_hash img [3] = Ok []
+  | Err _ => False
+  end.
+Proof. exact lookup_exact_example. Qed.
+Print Assumptions C16_lookup_example.
